@@ -4,6 +4,7 @@
 cd "$(dirname "$0")" || exit 2
 set -e
 /venv/bin/python -B harness/setup.py
+/venv/bin/python -B harness/gen_coqproject.py >/dev/null
 cd coq
 coq_makefile -f _CoqProject -o Makefile >/dev/null
 timeout 3000 make -j16 2>&1 | grep -v "^Closed under\|^COQC\|^COQDEP" | tail -40
